@@ -127,6 +127,12 @@ def eval_for_arbitrary(it, fn, elem_of, n, what):
         res = ctx.explore(lambda: it.call(fn, [elem_of(i)], {}))
     finally:
         ctx.loop_vars.pop()
+    for conds, kind, val, full in res:
+        heap1 = full[1]
+        for h, t in heap1.items():
+            if h not in snap[1] or not snap[1][h].eq(t):
+                ctx.restore(snap)
+                raise Unsupported(f"function applied element-wise ({what}) has a side effect on heap {h}")
     ctx.restore(snap)
     oks = [r for r in res if r[1] == "ok"]
     for conds, kind, val, full in res:
